@@ -240,6 +240,45 @@ fn one<A: Sx>(content: &[A], s: usize, ph: usize, out: &mut Out) {
         expect!("to_rev then to_comp", "to_rev.to_comp", A::seq_to_comp(&seq_to_rev(&fresh)).unwrap(), rcm);
     }
 
+    // ---- "equals either order of composition": the real ==, in both directions, and the hasher input -----
+    if A::HAS_COMP {
+        out.stage = "to_revcomp == to_comp.to_rev == to_rev.to_comp (==, hash)";
+        let r = out.catch(|| {
+            let rc_slice = A::slice_to_revcomp(pl.view()).unwrap();
+            let rc_seq = A::seq_to_revcomp(&fresh).unwrap();
+            let a = seq_to_rev(&A::seq_to_comp(&fresh).unwrap());
+            let b = A::seq_to_comp(&seq_to_rev(&fresh)).unwrap();
+            let mut c = fresh.clone();
+            A::seq_comp(&mut c);
+            seq_rev(&mut c);
+            let mut d = copied.clone();
+            A::seq_revcomp(&mut d);
+            let expect = build(revcomp_model.as_ref().unwrap());
+            let all = [&rc_slice, &rc_seq, &a, &b, &c, &d];
+            let eq = all.iter().all(|x| **x == expect && expect == **x && **x == rc_slice);
+            let h = bsv::rec::stream(&expect).bytes;
+            let hash = all.iter().all(|x| bsv::rec::stream(*x).bytes == h);
+            let comp_eq = A::seq_to_comp(&fresh).unwrap() == build(comp_model.as_ref().unwrap()) && A::slice_to_comp(pl.view()).unwrap() == build(comp_model.as_ref().unwrap());
+            (eq, hash, comp_eq)
+        });
+        out.check(r == Ok((true, true, true)), || {
+            (
+                format!("{cn}/revcomp/forms-not-equal-to-each-other"),
+                format!("{} (offset {s}): (all revcomp forms ==, same hasher input, to_comp == sequence of complements) = {:?}", show_cut(content), r),
+            )
+        });
+    }
+    {
+        out.stage = "to_rev == sequence of reversed symbols (==, hash)";
+        let r = out.catch(|| {
+            let expect = build(&rev_model);
+            let a = slice_to_rev(pl.view());
+            let b = seq_to_rev(&copied);
+            a == expect && b == expect && expect == a && bsv::rec::stream(&a).bytes == bsv::rec::stream(&expect).bytes
+        });
+        out.check(r == Ok(true), || (format!("{cn}/rev/result-not-equal-to-built-sequence"), format!("{} (offset {s}): {:?}", show_cut(content), r)));
+    }
+
     // ---- the copying forms left their receivers untouched ------------------------------------
     out.stage = "receiver unchanged";
     out.check(matches(pl.view(), content) && pl.parent.to_string() == parent_text, || {
